@@ -29,6 +29,11 @@ class IPGhost(Ghost):
 
     def resume_parse(self, I):
         self.resumed = True
+        # A: by now the lexer callbacks have appended this text's comment tokens to the parser's buffer
+        owner = getattr(self, "owner", None)
+        if owner is not None and owner.include_comments:
+            for c in getattr(owner, "ghost_comments", []):
+                owner._comments.append(c)
         return Seg("lark-tree", self.text)
 
 
@@ -38,6 +43,7 @@ class LalrGhost(Ghost):
 
     def parse_interactive(self, I, text):
         ip = IPGhost(I.E, text)
+        ip.owner = getattr(self, "owner", None)
         self.calls.append(ip)
         return ip
 
@@ -49,6 +55,7 @@ def mk_parser(E, expand=None, comments=False):
     p.include_comments = comments
     p._comments = []
     p.lalr = LalrGhost()
+    p.lalr.owner = p
     p.kwargs = {}
     return p
 
@@ -101,6 +108,46 @@ class ParseLoop(LoopSpec):
         yield "retyped-iff-rule", S.ite(want, elem.type == "UNQUOTED_STRING_VALUE", elem.type == ttype)
         yield "token-text-untouched", S.eq(elem.value, E.ctx.symbols["tok.value"])
         yield "position-untouched", S.and_(S.eq(elem.line, E.ctx.symbols["tok.line"]), S.eq(elem.column, E.ctx.symbols["tok.column"]))
+
+
+@register
+class ParseWithComments(Contract):
+    """include_comments=True: the line -> comment table is rebuilt from THIS parse's comments only (nothing of an
+    earlier parse survives, C12), one stripped entry per comment line (C14), then handed to _assign_comments"""
+    target = "mappyfile.parser.Parser.parse"
+    cases = ["two-comments"]
+    props = ("C12", "C14")
+
+    @property
+    def name(self):
+        return "mappyfile.parser.Parser.parse/comments"
+
+    def build(self, E, case):
+        p = mk_parser(E, expand=False, comments=True)
+        stale_line = E.int("stale.line")
+        p.comments_dict = E.odict(pycls=dict, entries=[(stale_line, E.str("stale.text"))])
+        p._comments.append(E.token("COMMENT", E.str("old.comment"), None, E.int("old.line"), 1))
+        c1 = E.token("COMMENT", E.str("c1.text"), None, E.int("c1.line"), E.int("c1.col"))
+        c2 = E.token("CCOMMENT", E.str("c2.text"), None, E.int("c2.line"), E.int("c2.col"))
+        E.assume(S.and_(stale_line != c1.line, stale_line != c2.line, c1.line != c2.line))
+        p.ghost_comments = [c1, c2]
+        E.__dict__["cs"] = (c1, c2, stale_line)
+        return (p, E.str("text"), None), {}
+
+    def ensures(self, E, case, args, kwargs, out):
+        p = args[0]
+        c1, c2, stale_line = E.__dict__["cs"]
+        yield "returns", out.kind == "return"
+        if out.kind != "return":
+            return
+        cd = p.comments_dict
+        ents = cd.items() if not hasattr(cd, "entries") else cd.entries
+        ents = list(ents)
+        yield "only-this-parse's-comments", len(ents) == 2
+        if len(ents) == 2:
+            yield "keyed-by-line-stripped-text", S.and_(S.eq(ents[0][0], c1.line), S.eq(ents[0][1], S.strip(c1.value)), S.eq(ents[1][0], c2.line), S.eq(ents[1][1], S.strip(c2.value)))
+        yield "buffer-holds-only-this-parse's-comments", len(p._comments) == 2
+        yield "comments-assigned-on-the-tree", any(isinstance(n_, tuple) and n_ and n_[0] == "assign-call" for n_ in E.ctx.notes) if E.symbolic else True
 
 
 @register
